@@ -57,6 +57,8 @@ pub fn registry() -> Vec<Box<dyn Check>> {
         Box::new(rw::RwCheck { id: "C06R" }),
         Box::new(rw::RwCheck { id: "C13R" }),
         Box::new(rw::RwCheck { id: "C07S" }),
+        Box::new(rw::RwCheck { id: "C05R" }),
+        Box::new(rw::RwCheck { id: "C09R" }),
         Box::new(rw::StopCheck),
         Box::new(explain::ExplainCheck),
         Box::new(repro::ReproCheck),
